@@ -8,12 +8,16 @@
 mod case;
 mod core;
 mod driver;
+mod exec;
 mod faults;
 mod gen;
 mod model;
 mod rng;
 mod scen_common;
+mod scen_poll;
 mod scen_read;
+mod scen_slice;
+mod scen_stat;
 mod scenarios;
 mod source;
 
